@@ -301,6 +301,15 @@ var c08HSpec = &HSpec{ID: "C08",
 					N: 2, Init: f.init, Alphabet: al, K: 2, MaxPerClient: 1, U: 1, F: 1, Y: 2, Cfg: hist.Config{Threshold: hist.Big, Interval: hist.Big}})
 			}
 		}
+		// what a REMOVED attribute leaves behind must survive the re-clone too:
+		// client 0 styles and removes the style, client 1 concurrently writes the
+		// same attribute with an older ticket; wherever the failed update falls,
+		// the copy has to ignore that write exactly like the root does (seeded
+		// change C08-4: a copy that drops the tombstones of an attribute table
+		// without live entries)
+		out = append(out, &hist.Scenario{Name: "c08/reclone/tree/removed-attribute/tr.sty0+tr.rmsty0|tr.sty0/N2K4F1Y2",
+			N: 2, Init: []string{"init.tr"}, Alphabet: []string{"tr.sty0", "tr.rmsty0"}, PerClient: [][]string{{"tr.sty0", "tr.rmsty0"}, {"tr.sty0"}},
+			K: 4, EditCaps: []int{3, 1}, F: 1, Y: 2, Cfg: hist.Config{Threshold: hist.Big, Interval: hist.Big}})
 		return out
 	},
 	Eval: func(r *hist.Runner, sc *hist.Scenario, h []hist.Event, res *Result) ([]hist.Violation, bool) {
